@@ -221,3 +221,61 @@ Definition wf (v : vars) : Prop :=
   (forall l i, lget l (l2i v) = Some i -> nget i (i2l v) = Some l) /\
   (forall z i, lget (LI z) (l2i v) = Some i -> in_range v z = true ->
                has_key (Z.to_nat z) (i2l v) = true).
+
+(* ---------- __getitem__(slice) ----------
+   cyvariables.pyx: start, stop, step = idx.indices(self.size()); a new container
+   receives self.at(i) for i in range(start, stop, step), appended strictly.
+   [adjust] is CPython's PySlice_Unpack + PySlice_AdjustIndices for one bound (both
+   bounds are clipped by the same rule); a missing bound is the end the walk starts
+   from / runs to. *)
+Definition adjust (x : option Z) (n step : Z) (is_stop : bool) : Z :=
+  match x with
+  | None => if (step <? 0)%Z then (if is_stop then (-1)%Z else (n - 1)%Z)
+            else (if is_stop then n else 0%Z)
+  | Some a =>
+      if (a <? 0)%Z then
+        (if (a + n <? 0)%Z then (if (step <? 0)%Z then (-1)%Z else 0%Z) else (a + n)%Z)
+      else if (n <=? a)%Z then (if (step <? 0)%Z then (n - 1)%Z else n)
+      else a
+  end.
+
+(* len(range(a, b, s)) and its elements, s <> 0 *)
+Definition zrange_len (a b s : Z) : Z :=
+  if (0 <? s)%Z then (if (a <? b)%Z then ((b - a - 1) / s + 1)%Z else 0%Z)
+  else (if (b <? a)%Z then ((a - b - 1) / (- s) + 1)%Z else 0%Z).
+Definition zrange (a b s : Z) : list Z :=
+  map (fun k => (a + Z.of_nat k * s)%Z) (seq 0 (Z.to_nat (zrange_len a b s))).
+
+(* at(idx): negative indices count from the end; IndexError outside [0, n) *)
+Definition at_checked (v : vars) (z : Z) : res lab :=
+  let z' := if (z <? 0)%Z then (z + Z.of_nat (stop v))%Z else z in
+  if in_range v z' then Ok (at_ v (Z.to_nat z')) else Err.
+
+Fixpoint ats (v : vars) (zs : list Z) : res (list lab) :=
+  match zs with
+  | [] => Ok []
+  | z :: r => match at_checked v z, ats v r with
+              | Ok l, Ok ls => Ok (l :: ls)
+              | _, _ => Err
+              end
+  end.
+
+Definition slice_bounds (v : vars) (a b s : option Z) : Z * Z * Z :=
+  let st := match s with None => 1%Z | Some x => x end in
+  let n := Z.of_nat (stop v) in
+  (adjust a n st false, adjust b n st true, st).
+
+(* the labels a slice selects, or Err when the call raises (step 0) *)
+Definition getitem_slice (v : vars) (a b s : option Z) : res vars :=
+  let '(lo, hi, st) := slice_bounds v a b s in
+  if (st =? 0)%Z then Err
+  else match ats v (zrange lo hi st) with
+       | Ok ls => extend empty ls false
+       | Err => Err
+       end.
+
+(* the step a slice walks with, and the labels it is expected to select *)
+Definition slice_step (s : option Z) : Z := match s with None => 1%Z | Some x => x end.
+Definition slice_labels (v : vars) (a b s : option Z) : list lab :=
+  let '(lo, hi, st) := slice_bounds v a b s in
+  map (fun z => at_ v (Z.to_nat z)) (zrange lo hi st).
